@@ -53,6 +53,13 @@ def run_case(rng, tier, idx):
             d['pdC'] = True; d['uTM'] = float(rng.choice([-1, 1]) * 10 ** rng.uniform(-2, 0) * h)
         if which in ('twist', 'both'):
             d['thetaTdeg'] = float(rng.choice([-1, 1]) * 10 ** rng.uniform(-2, 0) * np.degrees(h / d['r2']))
+    # load asymmetry: the loaded ring tilted by beta about the meridian at tLA (prescribed third amplitude LA = r2*tan(beta))
+    asym = bool(rng.random() < 0.25)
+    if asym:
+        d['betadeg'] = float(rng.choice([-1, 1]) * np.degrees(np.arctan(10 ** rng.uniform(-2, 0) * h / d['r2'])))
+        d['tLAdeg'] = float(rng.uniform(-180, 360)) if rng.random() < 0.8 else 0.0
+        if not prescribed:
+            inc = float(rng.uniform(0.2, 1.3))
     imperfect = bool(rng.random() < 0.3)
     m0 = n0 = 0
     if imperfect:
@@ -69,7 +76,7 @@ def run_case(rng, tier, idx):
     c = Case({'shell': d, 'zero_state': zero_state})
     c.tag('model:' + model, 'geom:cone' if cone else 'geom:cylinder', 'rule:' + rule, 'threads:%d' % threads,
           'prescribed:' + (which if prescribed else 'none'), 'imperfection:' + ('yes' if imperfect else 'no'),
-          'state:' + ('zero' if zero_state else 'deformed'))
+          'state:' + ('zero' if zero_state else 'deformed'), 'asymmetry:' + ('yes' if asym else 'no'))
     cc = gen.build_shell(d)
     if imperfect:
         cc.c0 = np.array(d['imp']['c0']); cc.m0 = m0; cc.n0 = n0; cc.funcnum = d['imp']['funcnum']
@@ -131,7 +138,7 @@ def run_case(rng, tier, idx):
                      'max diff %r' % float(np.abs(f_first - f_again).max()))
     except Exception as e:
         return c.reject('%s in calc_fint: %s' % (type(e).__name__, str(e)[:100]))
-    if not prescribed and not imperfect:
+    if not prescribed and not imperfect and not asym:
         c.expect('internal force of the undeformed perfect shell is zero', not f0.any(), 'max %r' % float(np.abs(f0).max()))
     cu = rng.normal(size=n) * sc_free
     # states with exactly quiet parts (what path-following really visits: axisymmetric pre-buckling states, membrane states)
@@ -161,7 +168,7 @@ def run_case(rng, tier, idx):
     scK = np.abs(KT) + 1e-9 * np.abs(KT).max() + 1e-300
     c.judge('kT symmetric', float((np.abs(KT - KT.T) / scK).max()), 1e-12)
     # linear coefficient at the undeformed state
-    if not prescribed and not imperfect and not zero_state:
+    if not prescribed and not imperfect and not asym and not zero_state:
         D0, S0 = stencil(fint, np.zeros(n), cu)
         ref = k0uu @ cu
         den = S0 + np.abs(k0uu) @ np.abs(cu); den = den + 1e-5 * den.max() + 1e-300
@@ -190,7 +197,7 @@ def run_case(rng, tier, idx):
         dirs_S.append((dc, D, S))
     mech = None
     if worst > 1e-9:
-        mech = classify(c, cc, model, fint, kT, cu, KT, k0uu, sc_free, n, plain=not prescribed and not imperfect)
+        mech = classify(c, cc, model, fint, kT, cu, KT, k0uu, sc_free, n, plain=not prescribed and not imperfect and not asym)
     for dc, D, den in dirs:
         c.judge('kT(c)*dc equals the derivative of fint along dc', float((np.abs(KT @ dc - D) / den).max()), 1e-9, mechanism=mech)
     # thread-count invariance (reassociation only) with another thread count
